@@ -53,7 +53,7 @@ var pureLib = map[string]string{
 	"strconv.FormatInt": "", "strconv.Quote": "", "bytes.Equal": "", "strings.Join": "", "strings.HasPrefix": "", "strings.HasSuffix": "",
 	"strings.Contains": "", "strings.ToLower": "", "strings.ToUpper": "", "strings.Split": "", "strings.TrimSpace": "", "strings.Repeat": "",
 	"(reflect.Value).Pointer": "", "(reflect.Value).Kind": "", "(reflect.Value).IsNil": "", "(reflect.Value).Len": "", "(reflect.Value).Interface": "",
-	"(reflect.Value).IsValid": "", "(reflect.Value).Elem": "", "(reflect.Value).Type": "", "(reflect.Value).FieldByName": "", "(reflect.Value).Index": "",
+	"(reflect.Value).IsValid": "", "(reflect.Value).MapIndex": "", "(reflect.Value).Elem": "", "(reflect.Value).Type": "", "(reflect.Value).FieldByName": "", "(reflect.Value).Index": "",
 	"(*reflect.rtype).Comparable": "", "(*reflect.rtype).Kind": "", "(*reflect.rtype).String": "", "(*reflect.rtype).Name": "", "(*reflect.rtype).Elem": "",
 	"(*sync.Mutex).Lock": "", "(*sync.Mutex).Unlock": "", "(*sync.RWMutex).Lock": "", "(*sync.RWMutex).Unlock": "", "(*sync.RWMutex).RLock": "", "(*sync.RWMutex).RUnlock": "",
 	"(*sync.WaitGroup).Add": "", "(*sync.WaitGroup).Done": "", "(*sync.WaitGroup).Wait": "",
@@ -430,6 +430,16 @@ func (vc *FnVC) mapSite(kind string, m ssa.Value, args []TV, pos token.Pos) {
 	if vc.ct == nil {
 		return
 	}
+	name, ord := vc.mapSiteNameOrd(kind, m, pos)
+	vc.callOrd[name] = ord
+	vc.siteAsserts(name, ord, vc.cur, args, pos)
+	vc.pendingSite = name
+	vc.pendingArgs = args
+}
+
+// mapSiteNameOrd: the site name ("mapupdate", "delete", with ":<field>" when the map is loaded from a struct field) and the
+// ordinal in source order among the sites of the same name, of the map operation at pos.
+func (vc *FnVC) mapSiteNameOrd(kind string, m ssa.Value, pos token.Pos) (string, int) {
 	name := kind
 	if u, ok := m.(*ssa.UnOp); ok {
 		if fa, ok := u.X.(*ssa.FieldAddr); ok {
@@ -466,10 +476,7 @@ func (vc *FnVC) mapSite(kind string, m ssa.Value, args []TV, pos token.Pos) {
 			}
 		}
 	}
-	vc.callOrd[name] = ord
-	vc.siteAsserts(name, ord, vc.cur, args, pos)
-	vc.pendingSite = name
-	vc.pendingArgs = args
+	return name, ord
 }
 
 func (vc *FnVC) mapSiteDone() {
@@ -772,6 +779,9 @@ func (vc *FnVC) blockResolver(b *ssa.BasicBlock, m *Mem) func(string) (TV, bool)
 func (vc *FnVC) cellVar(name string, b *ssa.BasicBlock, m *Mem) (TV, bool) {
 	for _, fv := range vc.fn.FreeVars {
 		if fv.Name() == name {
+			if immutableFreeVar(vc.fn, fv, 0) {
+				return TV{t: vc.fvConstTerm(fv), ty: fv.Type().Underlying().(*types.Pointer).Elem()}, true
+			}
 			lv := vc.lvOf(fv)
 			return TV{t: vc.loadLV(lv, m), ty: lv.typ}, true
 		}
